@@ -33,9 +33,15 @@ TReset ==
 TCSend ==
   /\ IsEvent("CSend") /\ CSend_G(w, c, Ev.m, Ev.id, Ev.i)
   /\ w' = CSend_F(w, c, Ev.m, Ev.id, Ev.i, Ev.s) /\ UNCHANGED c
+\* next / error frames name their instance in the payload; a completion (and the error of a start that
+\* failed before execution) carries only the id: TLC chooses the instance (two can share an id only
+\* under the duplicate-start deviation)
 TFrame ==
-  /\ IsEvent("CRecv") /\ Frame_G(w, c, Ev.m, Ev.id, Ev.i, Ev.k)
-  /\ w' = Frame_F(w, Ev.m, Ev.id, Ev.i, Ev.k) /\ UNCHANGED c
+  /\ IsEvent("CRecv")
+  /\ IF Ev.m = "complete" \/ (Ev.m = "error" /\ (Ev.i \notin Insts(w) \/ Ev.i = "?"))
+       THEN \E i \in OfId(w, Ev.id) : Frame_G(w, c, Ev.m, Ev.id, i, 0) /\ w' = Frame_F(w, Ev.m, Ev.id, i, 0)
+       ELSE Frame_G(w, c, Ev.m, Ev.id, Ev.i, Ev.k) /\ w' = Frame_F(w, Ev.m, Ev.id, Ev.i, Ev.k)
+  /\ UNCHANGED c
 TCEnd     == IsEvent("CEnd") /\ w' = CEnd_F(w) /\ UNCHANGED c
 TInitFn   == IsEvent("InitFn") /\ InitFn_G(w, c, Ev.m) /\ w' = InitFn_F(w, Ev.m) /\ UNCHANGED c
 TCloseFn  == IsEvent("CloseFn") /\ CloseFn_G(w, c) /\ w' = CloseFn_F(w) /\ UNCHANGED c
@@ -45,8 +51,10 @@ TSStart   == IsEvent("SStart") /\ SrcStart_G(w, c, Ev.i) /\ w' = SrcStart_F(w, E
 TSEmit    == IsEvent("SEmit") /\ SrcEmit_G(w, Ev.i, Ev.k) /\ w' = SrcEmit_F(w, Ev.i) /\ UNCHANGED c
 TSCancel  == IsEvent("SCancel") /\ SrcCancelSeen_G(w, c, Ev.i) /\ w' = SrcCancelSeen_F(w, Ev.i) /\ UNCHANGED c
 TSExit    == IsEvent("SExit") /\ SrcExit_G(w, Ev.i, Ev.m) /\ w' = SrcExit_F(w, Ev.i, Ev.m) /\ UNCHANGED c
-TStall    == IsEvent("Stall") /\ Stall_G(w, c, Ev.m, Ev.i) /\ w' = Stall_F(w, Ev.m) /\ UNCHANGED c
-TFinal    == IsEvent("Final") /\ Final_G(w, c, Ev.k) /\ UNCHANGED <<w, c>>
+TStall    == IsEvent("Stall") /\ Stall_G(w, c, Ev.m, Ev.i) /\ w' = Stall_F(w, Ev.m, Ev.i) /\ UNCHANGED c
+\* the last line of a session; a session that used named deviations reports them (line number, names)
+TFinal    == /\ IsEvent("Final") /\ Final_G(w, c, Ev.k) /\ w' = Final_F(w, Ev.k) /\ UNCHANGED c
+             /\ (Final_F(w, Ev.k).devs = {} \/ PrintT(<<"DEVS", l, Final_F(w, Ev.k).devs>>))
 \* "Panic" (a panic that no Source was scripted to raise reached the RecoverFunc, e.g. gorilla's
 \* "concurrent write to websocket connection"), "Race" (a data-race report of the -race build)
 \* and "Garbled" (a frame that does not parse) have no action: they are never accepted.
